@@ -27,6 +27,10 @@ Supp(sts) == [k |-> "supp", v |-> <<>>, e |-> "-", name |-> "", args |-> <<>>, f
               fid |-> 50, mode |-> "-", pv |-> "-", id |-> 0]
 Supps == {Supp(sts) : sts \in UNION {[1..n -> {"val", "sup"} \X SLeaf] : n \in 1..3}}
          \cup {Supp(sts) : sts \in UNION {[1..n -> ({"val", "sup"} \X {Unit(<<1>>), Bad("e1")}) \cup ({"pure", "func"} \X {Unit(<<2>>)})] : n \in 3..4}}
+\* ChainN builders with steps computed from the previous value (FlatMap / Map stages), incl. as the last stage and after failures
+KStep(c) == <<"kprev", [Unit(<<>>) EXCEPT !.name = c]>>
+MStep == <<"mprev", Unit(<<>>)>>
+ChainSupps == {Supp(sts) : sts \in UNION {[1..n -> ({"val", "sup"} \X {Unit(<<1>>), Bad("e1"), Bad("e4")}) \cup {KStep("kinc"), KStep("kfail"), MStep}] : n \in 2..3}}
 Rec(arg, c) == [k |-> "rec", v |-> <<>>, e |-> "-", name |-> "", args |-> <<>>, fin |-> [t |-> "none", id |-> 0, c |-> "-"],
                 arg |-> arg, kk |-> [id |-> 30, c |-> c], ks |-> <<>>, xs |-> <<>>, steps |-> <<>>, fid |-> 0, mode |-> "-", pv |-> "-", id |-> 0]
 Recs == {Rec(a, c) : a \in L0, c \in Conts}
@@ -34,7 +38,7 @@ Panics == {[Node EXCEPT !.k = "panic", !.mode = m, !.pv = pv, !.id = 40] : m \in
 \* one level of nesting: operands that are themselves combinators with callbacks
 Nested == {All(<<a, b>>, [t |-> "pure", id |-> 1, c |-> "-"]) : a \in {Chain(x, <<c>>) : x \in {Unit(<<1>>), Bad("e1")}, c \in {"kinc", "kfail"}},
                                                                b \in {Chain(x, <<c>>) : x \in {Unit(<<2>>)}, c \in {"kdup", "kfail"}}}
-Cases == Alls \cup Chains \cup Travs \cup Supps \cup Recs \cup Panics \cup Nested
+Cases == Alls \cup Chains \cup Travs \cup Supps \cup {p \in ChainSupps : p.steps[1].t \in {"val", "sup"}} \cup Recs \cup Panics \cup Nested
 ASSUME JsonSerialize("effectprogs.json", SetToSeq(Cases))
 \* the exported programs are meaningful to the reference semantics (it evaluates every one of them)
 ASSUME \A p \in Cases, mo \in {"try", "option", "either"} : Eval(p, mo).ok \in BOOLEAN
